@@ -11,7 +11,7 @@ InHits(E, id)   == \E i \in DOMAIN E.hits : E.hits[i].id = id
 PosOf(E, id)    == CHOOSE i \in DOMAIN E.hits : E.hits[i].id = id
 SmallStore(s)   == Len(s.records) <= s.limit /\ UniqueIds(s)
 QWord(E, i)     == WordChars(E.qtok, i)
-RWord(s, id, i) == WordChars(RecOf(s, id).tok, i)
+RWord(S, id, i) == WordChars(RecOfS(S, id).tok, i)
 NWords(tok)     == Len(tok.words)
 AllAlpha(w)     == \A i \in DOMAIN w : TVCI(w[i]).alpha
 Distinct(w)     == Cardinality(SeqRange(w))
@@ -34,18 +34,18 @@ IsOneEdit(w, v) == IsSubst(w, v) \/ IsInsert(w, v) \/ IsDelete(w, v) \/ IsSwap(w
 \* C03: a typed prefix of a title word finds the record
 C03(E, S, line) ==
   LET X == E.expect  s == S.s IN
-  ChkIf(/\ HasRec(s, X.rid) /\ SmallStore(s)
-        /\ X.widx \in 1..NWords(RecOf(s, X.rid).tok)
+  ChkIf(/\ HasRecS(S, X.rid) /\ SmallStore(s)
+        /\ X.widx \in 1..NWords(RecOfS(S, X.rid).tok)
         /\ NWords(E.qtok) = 1 /\ ~E.qtok.words[1].fin
-        /\ IsPrefixOf(QWord(E, 1), RWord(s, X.rid, X.widx)),
+        /\ IsPrefixOf(QWord(E, 1), RWord(S, X.rid, X.widx)),
         InHits(E, X.rid), line, "C03", "a prefix of a title word does not find the record")
 
 \* C04: one edit in a word of >= 5 letters (>= 3 distinct) still finds the record
 C04(E, S, line) ==
   LET X == E.expect  s == S.s IN
-  ChkIf(/\ HasRec(s, X.rid) /\ SmallStore(s)
-        /\ X.widx \in 1..NWords(RecOf(s, X.rid).tok)
-        /\ LET w == RWord(s, X.rid, X.widx) IN
+  ChkIf(/\ HasRecS(S, X.rid) /\ SmallStore(s)
+        /\ X.widx \in 1..NWords(RecOfS(S, X.rid).tok)
+        /\ LET w == RWord(S, X.rid, X.widx) IN
            /\ Len(w) >= 5 /\ AllAlpha(w) /\ Distinct(w) >= 3
            /\ NWords(E.qtok) = 1 /\ ~E.qtok.words[1].fin
            /\ E.qtok.chars = E.q /\ E.qtok.source = E.q                  \* normalisation leaves the query unchanged
@@ -59,33 +59,33 @@ C04(E, S, line) ==
 C13(E, S, line) ==
   LET X == E.expect  s == S.s IN
   IF X.kind = "whole" THEN
-    ChkIf(HasRec(s, X.rid) /\ SmallStore(s) /\ NWords(RecOf(s, X.rid).tok) >= 1 /\ E.q = RecOf(s, X.rid).title,
+    ChkIf(HasRecS(S, X.rid) /\ SmallStore(s) /\ NWords(RecOfS(S, X.rid).tok) >= 1 /\ E.q = RecOfS(S, X.rid).title,
           InHits(E, X.rid), line, "C13", "the full title does not find its record")
   ELSE
-    ChkIf(/\ HasRec(s, X.rid) /\ SmallStore(s)
-          /\ LET n == NWords(RecOf(s, X.rid).tok) IN
+    ChkIf(/\ HasRecS(S, X.rid) /\ SmallStore(s)
+          /\ LET n == NWords(RecOfS(S, X.rid).tok) IN
              /\ n >= 2 /\ NWords(E.qtok) = 2
              /\ {<<QWord(E, 1), QWord(E, 2)>>} \subseteq
-                  {<<RWord(s, X.rid, 1), RWord(s, X.rid, n)>>, <<RWord(s, X.rid, n), RWord(s, X.rid, 1)>>},
+                  {<<RWord(S, X.rid, 1), RWord(S, X.rid, n)>>, <<RWord(S, X.rid, n), RWord(S, X.rid, 1)>>},
           InHits(E, X.rid), line, "C13", "two complete title words do not find the record")
 
 \* C14: split and joined spellings
 C14(E, S, line) ==
   LET X == E.expect  s == S.s IN
   IF X.kind = "split" THEN
-    ChkIf(/\ HasRec(s, X.rid) /\ SmallStore(s) /\ X.widx \in 1..NWords(RecOf(s, X.rid).tok)
-          /\ Len(RWord(s, X.rid, X.widx)) >= 3
-          /\ NWords(E.qtok) = 2 /\ QWord(E, 1) \o QWord(E, 2) = RWord(s, X.rid, X.widx)
+    ChkIf(/\ HasRecS(S, X.rid) /\ SmallStore(s) /\ X.widx \in 1..NWords(RecOfS(S, X.rid).tok)
+          /\ Len(RWord(S, X.rid, X.widx)) >= 3
+          /\ NWords(E.qtok) = 2 /\ QWord(E, 1) \o QWord(E, 2) = RWord(S, X.rid, X.widx)
           /\ E.qtok.words[2].s - E.qtok.words[1].e = 1            \* the two parts are one separator apart (DESIGN.md 8)
           /\ Len(E.qtok.chars) = E.qtok.words[2].e /\ E.qtok.words[1].s = 0,
           InHits(E, X.rid), line, "C14", "a title word typed as two words does not find the record")
   ELSE
-    ChkIf(/\ HasRec(s, X.rid) /\ SmallStore(s)
-          /\ LET tok == RecOf(s, X.rid).tok IN
+    ChkIf(/\ HasRecS(S, X.rid) /\ SmallStore(s)
+          /\ LET tok == RecOfS(S, X.rid).tok IN
              /\ X.widx \in 1..(NWords(tok) - 1)
              /\ tok.words[X.widx + 1].s - tok.words[X.widx].e = 1
              /\ NWords(E.qtok) = 1
-             /\ QWord(E, 1) = RWord(s, X.rid, X.widx) \o RWord(s, X.rid, X.widx + 1)
+             /\ QWord(E, 1) = RWord(S, X.rid, X.widx) \o RWord(S, X.rid, X.widx + 1)
              /\ Len(QWord(E, 1)) >= 3
              /\ E.qtok.words[1].stem = Len(QWord(E, 1)),
           InHits(E, X.rid), line, "C14", "two title words typed as one do not find the record")
@@ -93,10 +93,10 @@ C14(E, S, line) ==
 \* C05 (last clause): an exact prefix of a one-word title highlights exactly what was typed
 C05Prefix(E, S, line) ==
   LET X == E.expect  s == S.s IN
-  IF ~(HasRec(s, X.rid) /\ Sentinels(s) /\ InHits(E, X.rid)) THEN Res(<<>>, <<"ood">>)
-  ELSE LET tok == RecOf(s, X.rid).tok
+  IF ~(HasRecS(S, X.rid) /\ Sentinels(s) /\ InHits(E, X.rid)) THEN Res(<<>>, <<"ood">>)
+  ELSE LET tok == RecOfS(S, X.rid).tok
            p   == ParseHL(E.hits[PosOf(E, X.rid)].title)
-       IN ChkIf(/\ SentinelFree(RecOf(s, X.rid).title) /\ p.ok
+       IN ChkIf(/\ SentinelFree(RecOfS(S, X.rid).title) /\ p.ok
                 /\ NWords(tok) = 1 /\ NWords(E.qtok) = 1 /\ ~E.qtok.words[1].fin
                 /\ IsPrefixOf(QWord(E, 1), WordChars(tok, 1)),
                 /\ Len(p.spans) = 1
@@ -107,17 +107,17 @@ C05Prefix(E, S, line) ==
 ----------------------------------------------------------------------------
 \* C08: documented ranking priorities, whatever the ratings
 SP == <<32>>
-TitleOfId(s, id) == RecOf(s, id).title
+TitleOfId(S, id) == RecOfS(S, id).title
 C08Domain(E, S) ==
   LET X == E.expect  s == S.s  u == X.u  v == X.v  x == X.x IN
-  /\ Len(s.records) = 2 /\ HasRec(s, X.a) /\ HasRec(s, X.b) /\ X.a # X.b /\ s.limit >= 2
+  /\ Len(s.records) = 2 /\ HasRecS(S, X.a) /\ HasRecS(S, X.b) /\ X.a # X.b /\ s.limit >= 2
   /\ SeqRange(u) \cap SeqRange(v) = {} /\ SeqRange(u) \cap SeqRange(x) = {} /\ SeqRange(v) \cap SeqRange(x) = {}
   /\ Len(u) \in 5..9 /\ Len(v) \in 5..9 /\ Len(x) >= 1
   /\ AllAlpha(u) /\ AllAlpha(v) /\ AllAlpha(x)
-  /\ \A id \in {X.a, X.b} : \A i \in DOMAIN RecOf(s, id).tok.words :
-        ~RecOf(s, id).tok.words[i].func \/ X.scenario = "function"
-  /\ LET A == TitleOfId(s, X.a)  B == TitleOfId(s, X.b)  q == E.q
-         ra == RecOf(s, X.a).rating  rb == RecOf(s, X.b).rating IN
+  /\ \A id \in {X.a, X.b} : \A i \in DOMAIN RecOfS(S, id).tok.words :
+        ~RecOfS(S, id).tok.words[i].func \/ X.scenario = "function"
+  /\ LET A == TitleOfId(S, X.a)  B == TitleOfId(S, X.b)  q == E.q
+         ra == RecOfS(S, X.a).rating  rb == RecOfS(S, X.b).rating IN
      CASE X.scenario = "exact_vs_typo" -> A = u /\ B # u /\ IsOneEdit(u, B) /\ AllAlpha(B) /\ q = u
        [] X.scenario = "both_vs_one"   -> A = u \o SP \o v /\ B \in {u, v, u \o SP \o x, x \o SP \o v} /\ q = u \o SP \o v
        [] X.scenario = "short_vs_long" -> A = u /\ IsPrefixOf(u, B) /\ Len(B) > Len(u) /\ AllAlpha(B)
@@ -127,10 +127,10 @@ C08Domain(E, S) ==
        [] X.scenario = "rating"        -> A = B /\ ra > rb /\ IsPrefixOf(q, u) /\ Len(q) >= 1 /\ IsPrefixOf(u, A)
        [] X.scenario = "length"        -> A = u /\ B = u \o SP \o x /\ ra = rb /\ q = u
        [] X.scenario = "function"      -> /\ NWords(E.qtok) = 1 /\ IsFunctionWord(S.lang, QWord(E, 1))
-                                          /\ NWords(RecOf(s, X.a).tok) = 1
-                                          /\ IsPrefixOf(QWord(E, 1), RWord(s, X.a, 1)) /\ Len(RWord(s, X.a, 1)) > Len(QWord(E, 1))
-                                          /\ ~RecOf(s, X.a).tok.words[1].func
-                                          /\ \E i \in DOMAIN RecOf(s, X.b).tok.words : WordChars(RecOf(s, X.b).tok, i) = QWord(E, 1)
+                                          /\ NWords(RecOfS(S, X.a).tok) = 1
+                                          /\ IsPrefixOf(QWord(E, 1), RWord(S, X.a, 1)) /\ Len(RWord(S, X.a, 1)) > Len(QWord(E, 1))
+                                          /\ ~RecOfS(S, X.a).tok.words[1].func
+                                          /\ \E i \in DOMAIN RecOfS(S, X.b).tok.words : WordChars(RecOfS(S, X.b).tok, i) = QWord(E, 1)
        [] OTHER -> FALSE
 C08(E, S, line) ==
   LET X == E.expect IN
